@@ -94,6 +94,25 @@ impl Prop for PGlob {
             let fx = build_fixture(&dir, &subjects);
             let mut o = run_one(&dir, &fx, &pat, fold);
             o["name_ok"] = json!(fx.name_ok);
+            // the same pattern under both letter-case rules in ONE expression: each test keeps its own rule
+            if input.get("both").and_then(|b| b.as_bool()).unwrap_or(false) {
+                let errf = dir.parent().unwrap().join("stderr.txt");
+                let (first, second) = if fold { ("-iname", "-name") } else { ("-name", "-iname") };
+                let args: Vec<String> = vec!["N".into(), "-mindepth".into(), "1".into(), "(".into(), first.into(), pat.clone(), "-printf".into(), "1%p\\0".into(), ",".into(),
+                                             second.into(), pat.clone(), "-printf".into(), "2%p\\0".into(), ")".into()];
+                let r = run_find_inproc(&dir, &args, None, &errf);
+                if r.panicked {
+                    return json!({"panic": true, "args": args});
+                }
+                let recs = split_nul(&r.out);
+                let pick = |tag: u8| -> Vec<usize> {
+                    let mut v: Vec<usize> = recs.iter().filter(|x| x.first() == Some(&tag)).map(|x| fx.names.get(&x[1..].to_vec()).copied().unwrap_or(0)).collect();
+                    v.sort();
+                    v
+                };
+                o["n1"] = json!(pick(b'1'));
+                o["n2"] = json!(pick(b'2'));
+            }
             // the subject of -name for a starting point is the last component of its spelling
             if let Some(sp) = input.get("spells") {
                 std::fs::create_dir_all(dir.join("R").join("sub")).unwrap();
@@ -279,7 +298,7 @@ impl Prop for PGlob {
                 }
             });
         }
-        let mut v = json!({"pat": pat, "fold": rng.chance(1, 3), "subjects": subjects});
+        let mut v = json!({"pat": pat, "fold": rng.chance(1, 3), "subjects": subjects, "both": rng.chance(1, 3)});
         if rootcase {
             let spells = ["R", "R/", "R/.", "R/..", "./R", "R/./", ".", "./", "R/sub", "R/sub/", "R/sub/..", "R/sub/.", "R//sub", "..", "R/./sub"];
             v["spells"] = json!(spells.iter().map(|x| str_to_json(x)).collect::<Vec<_>>());
